@@ -179,6 +179,30 @@ class Config:
             td["rowlabels"] = [self._fv(tbl, r, td["hc"] - 1) if td["hc"] else "" for r in range(td["nr"])]
             td["collabels"] = [self._fv(tbl, td["hr"] - 1, c) if td["hr"] else "" for c in range(td["nc"])]
 
+    def add_table_late(self, rng):
+        """a table added through the API to a document whose references were already printed (tables added later must be
+        found by every look-up the printer uses); the plain description follows."""
+        si = rng.randrange(len(self.desc))
+        tds = self.desc[si][1]
+        name = rng.choice(TABLE_POOL + ["Late " + str(rng.randrange(100))])
+        if any(t["name"].lower() == name.lower() for t in tds):
+            name = "Late " + str(rng.randrange(100, 1000))
+        nr, nc = rng.randrange(3, 6), rng.randrange(3, 6)
+        hr, hc = rng.choice((0, 1, 1)), rng.choice((0, 1, 1))
+        tbl = self.doc.sheets[si].add_table(name, num_rows=nr, num_cols=nc, num_header_rows=hr, num_header_cols=hc)
+        for c in range(hc, nc):
+            if hr:
+                tbl.write(hr - 1, c, rng.choice(LABEL_POOL[:-1] + [f"late{c}"]))
+        for r in range(hr, nr):
+            if hc:
+                tbl.write(r, hc - 1, rng.choice(LABEL_POOL[:-1] + [f"lr{r}"]))
+        td = {"name": name, "hr": hr, "hc": hc, "nr": nr, "nc": nc}
+        td["rowlabels"] = [self._fv(tbl, r, hc - 1) if hc else "" for r in range(nr)]
+        td["collabels"] = [self._fv(tbl, hr - 1, c) if hr else "" for c in range(nc)]
+        tds.append(td)
+        pos = sum(len(x[1]) for x in self.desc[: si + 1]) - 1
+        self.tables.insert(pos, (si, tbl, td))
+
     def rename_items(self, rng, n=2):
         """sheets and tables renamed through the API in a document whose references were already printed: swap the names of
         two sheets, give a sheet a fresh name, give a table the name of a table on another sheet / a fresh name (sibling
@@ -907,6 +931,11 @@ def run(ctx: Ctx):
             if k and k % (nrefs // 3) == 0 and _ci % 2 == 0:
                 # header labels edited after references were already printed (name caches must follow)
                 cfg.edit_headers(rng)
+                dwords = cfg.words()
+                desc = cfg.plain()
+            elif k == (2 * nrefs) // 3 + 7 and _ci % 3 != 2:
+                # a table added after references (also cross-table ones) were printed; references into it follow
+                cfg.add_table_late(rng)
                 dwords = cfg.words()
                 desc = cfg.plain()
             elif k == nrefs // 2 and _ci % 2 == 1:
